@@ -116,7 +116,7 @@ Qed.
 Lemma dagger_product' D (A rho : Mat) r c : herm_on D rho -> c < D ->
   cj (mm D rho (dg A) c r) = mm D A rho r c.
 Proof.
-  intros Hh Hc. rewrite <- (dagger_product o laws D A rho c r Hh Hc). symmetry. apply (conj_inv o laws).
+  intros Hh Hc. rewrite <- (dagger_product o laws D A rho c r Hh Hc). apply (conj_inv o laws).
 Qed.
 
 Lemma jump_term_herm D (J rho : Mat) r c : herm_on D rho -> r < D -> c < D ->
@@ -141,7 +141,7 @@ Proof.
   rewrite (dagger_product o laws D Heff rho r c Hh Hr).
   rewrite (dagger_product' D Heff rho r c Hh Hc).
   unfold jump_sum. rewrite (ksum_conj o laws).
-  rewrite (ksum_ext o (fun a => cj (mm D (mm D a rho) (dg a) c r)) (fun a => mm D (mm D a rho) (dg a) r c)).
+  rewrite (ksum_ext o Js (fun a => cj (mm D (mm D a rho) (dg a) c r)) (fun a => mm D (mm D a rho) (dg a) r c)).
   2:{ intros J _. apply jump_term_herm; assumption. }
   ring.
 Qed.
